@@ -76,14 +76,19 @@ def takeFitting : List Bytes → List Bytes × Bool
     if l.length ≥ PConst.maxToken then ([], true)
     else let (r, b) := takeFitting ls; (l :: r, b)
 
-/-- what `bufio.Scanner` delivers for a reader that serves `s` and, if `failAt = some k` with
-    `k ≤ |s|`, returns an error once `k` bytes have been served. -/
+/-- the bytes a reader serves before it fails (if `failAt = some k` with `k ≤ |s|` it returns an error
+    once `k` bytes have been served), and whether it failed -/
+def served (s : Bytes) (failAt : Option Nat) : Bytes × Bool :=
+  match failAt with
+  | some k => if k ≤ s.length then (s.take k, true) else (s, false)
+  | none => (s, false)
+
+/-- what `bufio.Scanner` delivers: the lines of the served bytes before the first over-long one, and
+    the error it ends with (too long takes precedence: the buffer fills before the reader is asked again) -/
 def scan (s : Bytes) (failAt : Option Nat) : List Bytes × Option ScanErr :=
-  let (data, readErr) := match failAt with
-    | some k => if k ≤ s.length then (s.take k, true) else (s, false)
-    | none => (s, false)
-  let (ls, long) := takeFitting (rawLines data)
-  (ls.map dropCR, if long then some .tooLong else if readErr then some .read else none)
+  let d := served s failAt
+  let t := takeFitting (rawLines d.1)
+  (t.1.map dropCR, if t.2 then some .tooLong else if d.2 then some .read else none)
 
 end Scanner
 
@@ -167,6 +172,10 @@ def events (cc : UInt8) (src : Bytes) : List Event :=
 def eventsFaulty (cc : UInt8) (src : Bytes) (failAt : Option Nat) : List Event × Option ScanErr :=
   let (ls, e) := Scanner.scan src failAt
   (parseLines cc e.isNone none 1 ls, e)
+
+/-- the error events of an event list, in order -/
+def errorsOf (evs : List Event) : List PErr :=
+  evs.filterMap (fun ev => match ev with | .error e => some e | .node _ => none)
 
 /-- does some entry of the text carry an Inf/NaN spelling? (such cases are compared by outcome class only) -/
 def hasNonFinite (cc : UInt8) (src : Bytes) : Bool :=
